@@ -380,7 +380,7 @@ fn c08_intervals() {
     }
 }
 
-//@ unit c08_ts_add_days prop=C08,C02,C03 chunks=ints:-62135596800000000,0,-1,221845392000000000,1,86399999999,253402300799999999 quickn=3 mem=5 timeout=1500/3600 bound="timestamp = the parameter (both range ends, the epoch and its neighbours, a date beyond the year 2255) x every f64 day offset (all 2^64 bit patterns incl. NaN, infinities): add_days/sub_days = offset*86400e6 rounded to the nearest microsecond (ties away from zero) added exactly; NaN -> InvalidNumber, infinite product -> NumericOverflow, out of range -> DateOutOfRange"
+//@ unit c08_ts_add_days prop=C08,C02,C03 chunks=ints:-62135596800000000,-1,0,221845392000000000,1,86399999999,253402300799999999 mem=5 timeout=1500/3600 quick=first:2 bound="timestamp = the parameter (both range ends, the epoch and its neighbours, a date beyond the year 2255) x every f64 day offset (all 2^64 bit patterns incl. NaN, infinities): add_days/sub_days = offset*86400e6 rounded to the nearest microsecond (ties away from zero) added exactly; NaN -> InvalidNumber, infinite product -> NumericOverflow, out of range -> DateOutOfRange"
 fn c08_ts_add_days(a: i64) {
     let days: f64 = kani::any();
     let x = mk_ts(a);
